@@ -195,6 +195,11 @@ type srvEvent struct {
 	what  string // req | body
 	text  string
 	bytes int
+	// resumed: the request came over a TLS session resumed from an earlier
+	// connection's (only code that keeps a session cache can get there)
+	resumed bool
+	// conn is the serial of the network connection the request came over
+	conn int
 }
 
 // handler is the simulated curlrevshell: it records every request and every
@@ -220,7 +225,11 @@ func callOfRequest(r *http.Request) int {
 
 func (h handler) ServeHTTP(w http.ResponseWriter, r *http.Request) {
 	k := callOfRequest(r)
-	h.s.srvSaw(srvEvent{srv: h.sv.n, call: k, what: "req", text: r.Method + " " + r.URL.Path})
+	serial := 0
+	if a, ok := r.Context().Value(http.LocalAddrContextKey).(simnet.Addr); ok {
+		serial = a.Serial
+	}
+	h.s.srvSaw(srvEvent{srv: h.sv.n, call: k, what: "req", text: r.Method + " " + r.URL.Path, resumed: r.TLS != nil && r.TLS.DidResume, conn: serial})
 	rc := http.NewResponseController(w)
 	stream := r.URL.Path == simpleshell.IOPath
 	if stream {
